@@ -18,6 +18,7 @@ CONSTANTS
   MaxNet = 0
   W = {"Env:S5Free"}
   MayTimeout = {a, b, c, d}
+  MayLink = {}
   Gen = TRUE
   OutDir = "OUTDIR"
 SPECIFICATION GSpec
